@@ -58,6 +58,7 @@ func TestC06(t *testing.T) {
 		addOptionalDefaults(rt, c, f, 0.25, o)
 		cfg := baseConfig()
 		cs := caseOf(cfg, []string{f.RelPath}, f)
+		countShapes(c, f, cs.Config)
 		jobs := buildJobs(rt, c, f.Root, progRoot, plan, o, cs)
 		rc := &RunCase{Case: cs, Jobs: jobs, Model: modelIfSingle(cs, f)}
 		c.Sample(sampleOf(cs, jobs))
